@@ -33,6 +33,10 @@ def gen_pred_case(rng, model=None, regime=None, kmax=8, pmax=8):
     case = dict(model=model, cfg=cfg, teams=teams, sel=None, vals=None, call={})
     if rng.random() < 0.1:
         case["ids"] = "shared"  # distinct objects carrying the same id string (deepcopy clones keep the id)
+    if rng.random() < 0.06:
+        from .util import FLAVOURS
+
+        case["flavour"] = rng.choice(FLAVOURS)  # list subclasses / a model subclass / ratings with extra attributes
     return case, dict(regime=regime, k=len(teams))
 
 
